@@ -138,6 +138,17 @@ func RunC02(env *sim.Env) {
 		src, mutKind, ok = groundTruth(t, src, dc, victim, names)
 		mustReject = ok && valid
 	}
+	// sizes on a boundary: the source is padded (blank text in front or plain text behind) so that its length is a multiple of 512, 4096 or 65536 bytes, or one byte off
+	if t.Choose(8) == 7 {
+		unit := []int{512, 4096, 4096, 65536}[t.Choose(4)]
+		want := (len(src)/unit+1)*unit + t.Choose(3) - 1
+		if t.Choose(2) == 1 {
+			src = strings.Repeat(" ", want-len(src)) + src // blank text may precede anything, even extends
+		} else {
+			src += strings.Repeat("p", want-len(src))
+		}
+		env.Stat("probe:source_length_on_a_block_boundary", 1)
+	}
 	if len(src) > 1<<18 {
 		src = src[:1<<18]
 		mustReject = false // the inserted mistake may have been cut off
